@@ -600,7 +600,13 @@ def load_subscript(it, obj, k):
             if isinstance(rows, slice) and rows == slice(None, None, None):
                 if isinstance(col, str):
                     return _col(d, col)
-                return DF({c: d.cols[c] for c in col}, d.n, d.index)
+                if isinstance(col, slice):
+                    if obj.name != "iloc" or not all(x is None or (isinstance(x, int) and not isinstance(x, bool)) for x in (col.start, col.stop, col.step)):
+                        raise Undecided(f".{obj.name}[:, {col!r}]")
+                    col = [c for c in d.cols if not c.startswith("__")][col]
+                out = DF({c: d.cols[c] for c in col}, d.n, d.index)
+                out.exact, out.labels = d.exact, d.labels
+                return out
             if isinstance(rows, Vec) and isinstance(col, str):
                 return _maskload(d.cols[col], rows)
             if isinstance(rows, int) and isinstance(col, str):
@@ -857,7 +863,10 @@ def value_attr(it, obj, attr):
         if attr == "columns":
             return ColList(c for c in obj.cols if not c.startswith("__"))
         if attr == "index":
-            return IndexVals(obj.n, obj.labels)
+            labels = obj.labels
+            if labels is None and obj.exact and obj.index == "range":
+                labels = list(range(obj.n))            # literally these rows under the default 0..n-1 index
+            return IndexVals(obj.n, labels)
         if attr == "empty":
             return obj.n == 0
         if attr == "values":
@@ -1265,10 +1274,14 @@ def df_method(it, obj, name, args, kw):
         d.exact, d.labels = True, list(kw["index"].labels)
         return d
     if name == "reindex" and "columns" in kw:
-        return DF({c: obj.cols.get(c, Vec([None] * obj.n)) for c in kw["columns"]}, obj.n, obj.index, obj.pop)
+        out = DF({c: obj.cols.get(c, Vec([None] * obj.n)) for c in kw["columns"]}, obj.n, obj.index, obj.pop)
+        out.exact, out.labels = obj.exact, (list(obj.labels) if obj.labels is not None else None)
+        return out
     if name == "rename" and "columns" in kw:
         m = kw["columns"]
-        return DF({m.get(c, c): v for c, v in obj.cols.items()}, obj.n, obj.index, obj.pop)
+        out = DF({m.get(c, c): v for c, v in obj.cols.items()}, obj.n, obj.index, obj.pop)
+        out.exact, out.labels = obj.exact, (list(obj.labels) if obj.labels is not None else None)
+        return out
     if name == "assign":
         d = obj.copy()
         for k, v in kw.items():
@@ -1519,6 +1532,12 @@ def ext_call(it, dotted, args, kw):
         fresh = name == "pd.Series" and "index" not in kw
         if name == "pd.Series" and isinstance(a0, dict) and "index" not in kw:
             return LabelSeries(a0)
+        if name == "pd.Series" and isinstance(a0, IndexVals) and "index" not in kw:
+            if a0.labels is None:
+                raise Undecided("pd.Series(<index of unknown labels>)")
+            r = Vec(list(a0.labels), fresh=True)
+            r.exact = True
+            return r
         ix = kw.get("index")
         if name == "pd.Series" and isinstance(ix, Vec) and isinstance(a0, Vec) and len(ix.v) == len(a0.v) and ix.v and all(isinstance(x, str) for x in ix.v) \
                 and len(set(ix.v)) == len(ix.v) and not ix.aligned:
@@ -1598,7 +1617,19 @@ def ext_call(it, dotted, args, kw):
             return DF(a0, n)
         if isinstance(a0, DF):
             return a0
+        if isinstance(a0, dict) and a0 and any(isinstance(v, Vec) for v in a0.values()) and \
+                all(isinstance(v, (Vec, str, int, float, Fr)) and not isinstance(v, bool) for v in a0.values()):
+            # scalars are broadcast over the rows of the column-valued entries
+            vecs = [v for v in a0.values() if isinstance(v, Vec)]
+            n = len(vecs[0].v)
+            if any(len(v.v) != n for v in vecs):
+                raise Raised("ValueError", "All arrays must be of the same length")
+            out = DF({k: (v if isinstance(v, Vec) else Vec([v] * n, aligned=True)) for k, v in a0.items()}, n)
+            out.exact = all(v.exact for v in vecs)
+            return out
         return Opaque(name)
+    if name == "pd.DataFrame.from_dict" and args and isinstance(args[0], dict) and len(args) == 1 and not kw:
+        return ext_call(it, "pd.DataFrame", [dict(args[0])], {})
     if name in ("pd.DataFrame.from_records", "pd.DataFrame.from_dict"):
         return frame_from_records(it, args, kw)
     if name == "pd.concat":
@@ -1615,6 +1646,16 @@ def ext_call(it, dotted, args, kw):
             out = DF({c: Vec([v for x in parts for v in (x.cols[c].v if c in x.cols else [None] * x.n)], aligned=True) for c in cols}, n)
             # without ignore_index the parts' labels repeat: label-aligned stores into the result are hazards
             out.index = "range" if (kw.get("ignore_index") is True or len(parts) == 1) else "any"
+            out.exact = all(getattr(x, "exact", False) for x in parts)
+            return out
+        if parts and all(isinstance(x, DF) for x in parts) and kw.get("axis") == 1 and len({x.n for x in parts}) == 1 and set(kw) <= {"axis"}:
+            cols = {}
+            for x in parts:
+                for c, v in x.cols.items():
+                    if c in cols:
+                        raise Undecided("pd.concat(axis=1) with a repeated column name")
+                    cols[c] = v
+            out = DF(cols, parts[0].n, parts[0].index)
             out.exact = all(getattr(x, "exact", False) for x in parts)
             return out
         if parts and all(isinstance(x, Vec) for x in parts) and kw.get("axis", 0) == 0:
